@@ -41,6 +41,10 @@ def candidates(spec):
     for nk, node in spec.get('names', {}).items():
         if node[0] == 'cell':
             inp.append(('n:' + nk, name_id(*nk.split('|')), 'cell', [W.key(node[1], node[2], node[3])]))
+        elif node[0] == 'rng':                      # a name for a (column) range: the argument reaches the cells behind it
+            c1, r1, c2, r2 = W.parse_rect(node[3])
+            if c1 == c2 and r2 - r1 + 1 <= 3:
+                inp.append(('nr:' + nk, name_id(*nk.split('|')), 'range', [W.key(node[1], node[2], W.coord(c1, r)) for r in range(r1, r2 + 1)]))
     # ranges the workbook itself refers to (only those are nodes of the model), up to 3 cells, all populated by constants/formulas
     seen = set()
 
